@@ -126,6 +126,18 @@ func cookieValidation(c *ctx) {
 }
 
 func runCook(c *ctx) {
+	{
+		// a logged-in browser whose proxied request is abandoned while the upstream hangs (the logs are scanned for secrets at the end of the driver)
+		s := newSut(sutOpts{sidRequired: true, ingresses: []string{"http://wonderwall"}})
+		rp := s.replica("A")
+		b := newBrowser()
+		if _, err := s.login(b, rp, "http://wonderwall", ""); err == nil {
+			b.do(rp, "GET", "http://wonderwall/some/page", http.Header{"Sec-Fetch-Mode": {"navigate"}, "Sec-Fetch-Dest": {"document"}})
+			s.abortedProxy(rp, b, "http://wonderwall")
+			c.count("aborted-proxy")
+		}
+		s.close()
+	}
 	_ = c.rng
 	cookieValidation(c)
 	nav := http.Header{"Sec-Fetch-Mode": {"navigate"}, "Sec-Fetch-Dest": {"document"}}
